@@ -9,8 +9,8 @@ import travrun, travcmp
 
 def cfgs(ctx):
     if ctx.tier == "quick":
-        return [("Traversal_narrow3.cfg", None, None), ("Traversal_wide2.cfg", None, None)]
-    return [("Traversal_narrow3.cfg", None, None), ("Traversal_wide2.cfg", None, None), ("Traversal_plan3.cfg", None, None),
+        return [("Traversal_path5.cfg", None, None), ("Traversal_narrow3.cfg", None, None), ("Traversal_wide2.cfg", None, None)]
+    return [("Traversal_path5.cfg", None, None), ("Traversal_narrow3.cfg", None, None), ("Traversal_wide2.cfg", None, None), ("Traversal_plan3.cfg", None, None),
             ("Traversal_sim.cfg", "num=6000", 8)]
 
 
@@ -34,7 +34,7 @@ def run(ctx):
             ctx.sample(dict(graph=s["g"], prog=s["prog"], status=s["status"], ty=s["ty"], rows=len(s["rows"]), blocks=s["blocks"]))
     ctx.cov.update(evaluations=total, distinct_nontrivial=nontriv, traces_validated_against_impl=total,
                    exhaustive=(ctx.tier == "quick"),
-                   rule="all programs over the Traversal.tla alphabets (narrow to 3 steps after the start, wide to 2) on the "
+                   rule="all programs over the Traversal.tla alphabets (moves/as/select/path/count to 5 steps after the start, narrow to 3, wide to 2) on the "
                         "7-graph family, plus random programs to 8 steps in the thorough tier; non-trivial = well-typed with "
                         "a non-empty untruncated result", failing_states=nbad)
     ctx.assumptions += [
